@@ -3,13 +3,15 @@ package props
 // JSON-shaped values for the encoder properties (C03, C06, C16, C19).
 
 import (
+	"math"
+
 	"pgregory.net/rapid"
 )
 
 var xmlKeyNames = []string{"a", "b", "c", "d", "k1", "k2", "item", "x-y", "Z"}
 
 // incl. the boundaries where %v / strconv switch to exponent form, the largest exact integer, a denormal and the extremes
-var someFloats = []float64{0, 1, -1, 0.5, 3.14159, 1e21, 1e-7, 123456789, -2.5e-3, 1e6, 100, 1e20, 123456789012345680000, 1e-6, 1e-5, 9007199254740992, 9007199254740993, 5e-324, 1.7976931348623157e308, -1e21, 0.1, 1.0000000000000002,
+var someFloats = []float64{0, math.Copysign(0, -1), 0, 1, -1, 0.5, 3.14159, 1e21, 1e-7, 123456789, -2.5e-3, 1e6, 100, 1e20, 123456789012345680000, 1e-6, 1e-5, 9007199254740992, 9007199254740993, 5e-324, 1.7976931348623157e308, -1e21, 0.1, 1.0000000000000002,
 	// whole numbers between 2^53 and 2^63 (written as plain integer literals by encoding/json, yet float64 values), and just beyond
 	1e16, 1e18, 1152921504606846976, 1234567890123456789, -1e17, 9223372036854775808, 18446744073709551615, 1e19}
 
